@@ -34,13 +34,13 @@ def run_contract(contract, callees=None, timeout_ms=15000):
     # obligations that did not go through: look for a failing input of the real function in the contract's
     # bounded domain (the function's bounded stand-in); a hit turns "undecided" into a violation with an input
     search = getattr(contract, "search", None)
-    if search is not None and any(o.status in (VIOLATED, "undecided") and o.kind == "vc" and not getattr(o, "replayed", False) for o in obs):
+    if search is not None and any(o.status in (VIOLATED, "undecided", "error") and o.kind == "vc" and not getattr(o, "replayed", False) for o in obs):
         try:
             hit = search()
         except Exception as e:
             hit = None
         for o in obs:
-            if o.status in (VIOLATED, "undecided") and o.kind == "vc" and not getattr(o, "replayed", False):
+            if o.status in (VIOLATED, "undecided", "error") and o.kind == "vc" and not getattr(o, "replayed", False):
                 if hit is not None:
                     o.status = VIOLATED
                     o.model = hit[0]
